@@ -63,7 +63,7 @@ def has(e, pred):
 def cases(draw, tier):
     e = draw(exprs.filter(lambda x: "leaf" not in x)) if draw(st.integers(0, 9)) else draw(exprs)
     return {"expr": e, "type": draw(st.sampled_from(gen.TYPES)), "n": draw(st.integers(2, 4)), "seed": draw(st.integers(0, 2 ** 31 - 1)),
-            "batch": draw(st.lists(st.integers(0, 15), min_size=2, max_size=6))}
+            "batch": draw(st.lists(st.integers(0, 15), min_size=2, max_size=6)), "long_batch": draw(st.integers(0, 3)) == 0}
 
 
 def scalar(d):
@@ -109,6 +109,18 @@ def interp(e, state, samples):
     return l + r if e["op"] == "+" else l - r if e["op"] == "-" else l * r
 
 
+def interp_on(e, state, samples):
+    """interpreter that keeps the batch's dtype (leaves see exactly the tensor the composite was given)"""
+    if "leaf" in e:
+        return make_leaf(e["leaf"]).apply(state, samples.clone()).double()
+    if "num" in e:
+        return float(e["num"])
+    if "neg" in e:
+        return -interp_on(e["neg"], state, samples)
+    l, r = interp_on(e["l"], state, samples), interp_on(e["r"], state, samples)
+    return l + r if e["op"] == "+" else l - r if e["op"] == "-" else l * r
+
+
 def make_state(c):
     import qucumber
     from qucumber.nn_states import ComplexWaveFunction, DensityMatrix, PositiveWaveFunction
@@ -151,6 +163,16 @@ def check(c):
     require(isinstance(got, torch.Tensor) and tuple(got.shape) == (len(c["batch"]),), "apply:shape", f"composite.apply returned {type(got).__name__} of shape {getattr(got, 'shape', None)}")
     require(bool(torch.all((got.double() - want).abs() <= 1e-12 * want.abs() + 1e-12)), "apply:value",
             "composite.apply differs from the same arithmetic applied to the per-sample values of its leaves", got=got.tolist(), want=want.tolist(), symbol=str(obs))
+    leaves = set()
+    has(e, lambda x: leaves.add(x["leaf"]) if "leaf" in x else False)
+    if c.get("long_batch") and c["type"] != "density" and leaves <= {"SigmaX", "SigmaY", "SigmaXabs", "NI1", "NI2p"}:
+        # these leaves accept integer sample tensors on wavefunction states; the composite must then still be the same arithmetic
+        sl = samples.long()
+        gl = obs.apply(state, sl.clone()).double()
+        wl = interp_on(e, state, sl)
+        # integer batches make torch promote leaf values to float32 (long * 2.0 -> float32): single-precision tolerance here
+        require(bool(torch.all((gl - wl).abs() <= 1e-5 * wl.abs() + 1e-5)), "apply:value:integer-samples",
+                "on an integer-dtype batch the composite differs from the same arithmetic applied to its leaves' values", got=gl.tolist(), want=wl.tolist(), symbol=str(obs))
     st_ = obs.statistics_from_samples(state, samples.clone())
     w = want.numpy()
     mean, var = float(np.mean(w)), float(np.var(w, ddof=1))
